@@ -1,0 +1,83 @@
+//go:build verif
+
+package align
+
+// Property-level theorems for /verif/govc, written as client programs of the
+// contracted functions. Never called; verified modularly (each call is
+// replaced by the callee's contract).
+
+//@ theorem C09.proteinTotal.BLOSUM45
+//@   props C09
+//@   requires forall p int :: 0 <= p && p < len(a) ==> isProt(a[p])
+//@   requires forall q int :: 0 <= q && q < len(b) ==> isProt(b[q])
+// Aligning two protein sequences with BLOSUM45 never panics (every pair needed,
+// including those against the gap, is defined; gap scores are non-positive).
+func thmProteinTotalBLOSUM45(a, b []byte) {
+	Global(a, b, BLOSUM45)
+	Local(a, b, BLOSUM45)
+}
+
+//@ theorem C09.proteinTotal.BLOSUM62
+//@   props C09
+//@   requires forall p int :: 0 <= p && p < len(a) ==> isProt(a[p])
+//@   requires forall q int :: 0 <= q && q < len(b) ==> isProt(b[q])
+// Aligning two protein sequences with BLOSUM62 never panics (every pair needed,
+// including those against the gap, is defined; gap scores are non-positive).
+func thmProteinTotalBLOSUM62(a, b []byte) {
+	Global(a, b, BLOSUM62)
+	Local(a, b, BLOSUM62)
+}
+
+//@ theorem C09.proteinTotal.BLOSUM80
+//@   props C09
+//@   requires forall p int :: 0 <= p && p < len(a) ==> isProt(a[p])
+//@   requires forall q int :: 0 <= q && q < len(b) ==> isProt(b[q])
+// Aligning two protein sequences with BLOSUM80 never panics (every pair needed,
+// including those against the gap, is defined; gap scores are non-positive).
+func thmProteinTotalBLOSUM80(a, b []byte) {
+	Global(a, b, BLOSUM80)
+	Local(a, b, BLOSUM80)
+}
+
+//@ theorem C09.proteinTotal.PAM120
+//@   props C09
+//@   requires forall p int :: 0 <= p && p < len(a) ==> isProt(a[p])
+//@   requires forall q int :: 0 <= q && q < len(b) ==> isProt(b[q])
+// Aligning two protein sequences with PAM120 never panics (every pair needed,
+// including those against the gap, is defined; gap scores are non-positive).
+func thmProteinTotalPAM120(a, b []byte) {
+	Global(a, b, PAM120)
+	Local(a, b, PAM120)
+}
+
+//@ theorem C09.proteinTotal.PAM160
+//@   props C09
+//@   requires forall p int :: 0 <= p && p < len(a) ==> isProt(a[p])
+//@   requires forall q int :: 0 <= q && q < len(b) ==> isProt(b[q])
+// Aligning two protein sequences with PAM160 never panics (every pair needed,
+// including those against the gap, is defined; gap scores are non-positive).
+func thmProteinTotalPAM160(a, b []byte) {
+	Global(a, b, PAM160)
+	Local(a, b, PAM160)
+}
+
+//@ theorem C09.proteinTotal.PAM250
+//@   props C09
+//@   requires forall p int :: 0 <= p && p < len(a) ==> isProt(a[p])
+//@   requires forall q int :: 0 <= q && q < len(b) ==> isProt(b[q])
+// Aligning two protein sequences with PAM250 never panics (every pair needed,
+// including those against the gap, is defined; gap scores are non-positive).
+func thmProteinTotalPAM250(a, b []byte) {
+	Global(a, b, PAM250)
+	Local(a, b, PAM250)
+}
+
+//@ theorem C09.levenshteinTotal
+//@   props C09
+//@   requires forall p int :: 0 <= p && p < len(a) ==> a[p] != 255
+//@   requires forall q int :: 0 <= q && q < len(b) ==> b[q] != 255
+// Levenshtein is defined on every pair of bytes; gap scores are -1 and the gap-open score is 0.
+func thmLevenshteinTotal(a, b []byte) {
+	Global(a, b, Levenshtein)
+	Local(a, b, Levenshtein)
+}
